@@ -391,8 +391,8 @@ pub fn run(a: &Args) {
         let mut r = Rep::new("C03", &format!("constructors-{}", profile()));
         let all = b64();
         for &x in &all {
-            ctor_virt(&mut r, x);
-            ctor_phys(&mut r, x);
+            guarded(&mut r, "C03|VirtAddr constructors|unexpected-panic", || format!("ctor V {:#x}", x), |r| ctor_virt(r, x));
+            guarded(&mut r, "C03|PhysAddr constructors|unexpected-panic", || format!("ctor P {:#x}", x), |r| ctor_phys(r, x));
         }
         for &x in &all {
             for &y in &[0u64, u64::MAX, 0x0000_8000_0000_0000, 0xffff_7fff_0000_0000, 0x1234_5678_9abc_def0] {
